@@ -73,6 +73,13 @@ impl PutQuery {
             }
         }
 
+        if self.inflight_requests.is_empty() {
+            // None of the nodes has a token (for example the closest nodes of a
+            // FIND_NODE query for the same target), so nothing was sent and nothing
+            // would ever complete this query.
+            Err(PutQueryError::NoClosestNodes)?;
+        }
+
         Ok(())
     }
 
